@@ -112,7 +112,7 @@ func newTarget(s string, o *fw.Obs) *target {
 		return nil
 	}
 	if err != nil {
-		o.Fail("base", "the valid string %q is rejected by Decode: %v", s, err)
+		o.Fail("base", "the valid string %+q is rejected by Decode: %v", s, err)
 		return nil
 	}
 	t.alts = make([][]byte, len(s))
@@ -152,7 +152,7 @@ func judge(class string, key []byte, o *fw.Obs) {
 						nh++
 					}
 					if accepted(buf) {
-						o.Fail("undetected", "Decode accepts %q, which differs from the valid string %q in 1 character (position %d)", buf, s, i)
+						o.Fail("undetected", "Decode accepts %+q, which differs from the valid string %+q in 1 character (position %d)", buf, s, i)
 					}
 				}
 				buf[i] = s[i]
@@ -173,7 +173,7 @@ func judge(class string, key []byte, o *fw.Obs) {
 						buf[j] = b
 						n++
 						if accepted(buf) {
-							o.Fail("undetected", "Decode accepts %q, which differs from the valid string %q in 2 characters (positions %d, %d)", buf, s, i, j)
+							o.Fail("undetected", "Decode accepts %+q, which differs from the valid string %+q in 2 characters (positions %d, %d)", buf, s, i, j)
 						}
 					}
 					buf[j] = s[j]
@@ -225,7 +225,7 @@ func judge(class string, key []byte, o *fw.Obs) {
 					nh++
 				}
 				if accepted(buf) {
-					o.Fail("undetected", "Decode accepts %q, which differs from the valid string %q in %d characters (positions %v)", buf, s, w, pos[:w])
+					o.Fail("undetected", "Decode accepts %+q, which differs from the valid string %+q in %d characters (positions %v)", buf, s, w, pos[:w])
 				}
 				for a := 0; a < w; a++ {
 					buf[pos[a]] = s[pos[a]]
@@ -434,7 +434,7 @@ func syndromeLayer(seed int64, o *fw.Obs) {
 		}
 		if base, corrupted, yes := confirm(e, r, o); yes {
 			confirmed++
-			o.Fail("undetected", "the error pattern %v has syndrome 0 under bech32Polymod, and Decode accepts both %q (built by Encode) and %q, which differ in %d characters", e, base, corrupted, e.n)
+			o.Fail("undetected", "the error pattern %v has syndrome 0 under bech32Polymod, and Decode accepts both %+q (built by Encode) and %+q, which differ in %d characters", e, base, corrupted, e.n)
 		}
 	}
 	o.Add("meet in the middle: collisions", int64(collisions))
